@@ -8,7 +8,8 @@ Decided for all inputs — necessary structural conditions of the generators onl
  (ii)  sort dominates the merge loop in the HashSet → Vec conversion;
  (iii) accumulator consumed: every field a line parser's process_entry writes is read by its
        generate_code (a gap tracker needs a finalisation point);
- (iv)  the First/Last folding automaton of UnicodeData::parse.
+ (iv)  entry-kind agreement: a line parser selects an entry by its properties, never by its shape —
+       under every selection condition Single and First/Last Range entries are both accumulated.
 Not decided: that run compression and gap tracking compute the right values for arbitrary entry
 sequences (unbounded numeric sequences)."""
 import re
@@ -252,6 +253,75 @@ def accumulators(prog, rep):
     rep.floor("line-parser generator types", n, 5)
 
 
+def entry_kind_agreement(prog, rep):
+    """(v) a line parser selects an entry by its properties, never by its shape: under every selection
+    condition, Single entries and First/Last Range entries must both be accumulated (or both skipped)."""
+    from .. import totality as tt
+    from .. import types as ty_
+
+    n = 0
+    for b in prog.by_crate["precis_tools"]:
+        if b.kind != "fn" or b.d["impl_trait"] != "precis_tools::generators::ucd_generator::UcdLineParser" or not b.id.endswith("::process_entry"):
+            continue
+        f = prog.fns.get(b.key)
+        if f is None:
+            continue
+        rep.fn(b.key)
+
+        class W(tt.TotalWorld):
+            cp_syms = set()
+
+            def restrict_variants(self, st, v, opts):
+                if "ucd_parse::common::Codepoints" in v.ty:
+                    self.cp_syms.add(v.name)
+                return opts
+
+            def call(self, m, st, callee, args, term):
+                for a in args:
+                    if isinstance(a, ip.Ref) and a.loc[0] == "heap" and a.loc[1] == ("arg", 0) and a.loc[2]:
+                        st.emit(("accumulate", callee["name"]))
+                return tt.TotalWorld.call(self, m, st, callee, args, term)
+
+        w = W(prog, set(), b.key)
+        w.cp_syms = set()
+        m = ip.Machine(prog, w)
+        st0 = ip.State()
+        args = ty_.fresh_args(prog, st0, f["inputs"])
+        try:
+            outs = m.run(m.start(b.key, args, st0))
+        except ip.AnalysisError as e:
+            rep.analysis_error("entry-kind-agreement", b.id, e, b.where())
+            continue
+        n += 1
+        # which field of the entry holds the code points
+        acc = {0: set(), 1: set()}
+        seen_variant = set()
+        for o in outs:
+            if o.kind not in ("return",):
+                continue
+            variant = None
+            sig = []
+            for k, v in o.state.log:
+                if isinstance(k, tuple) and k[0] == "val" and k[1] in w.cp_syms:
+                    variant = v
+                elif isinstance(k, tuple) and k[0] == "cmp" and "('arg', 1)" in repr(k[1]) and not any(repr(n) in repr(k[1]) for n in w.cp_syms):
+                    sig.append((repr(k[1]), k[2], k[3], v))
+                elif isinstance(k, tuple) and k[0] == "str-eq":
+                    sig.append(("str-eq", v))
+            if variant is None:
+                continue
+            seen_variant.add(variant)
+            if any(e[0] == "accumulate" for e in o.state.events):
+                acc[variant].add(frozenset(sig))
+        if not seen_variant:
+            # the parser does not look at the entry's shape at all (it stores the entry as it is)
+            rep.ob("entry-kind-agreement", b.id.split(" as ")[0].split("::")[-1] + " (shape-agnostic)", True, "", b.where())
+            continue
+        okk = acc[0] == acc[1]
+        rep.ob("entry-kind-agreement", b.id.replace("precis_tools::generators::ucd_generator::", ""), okk, "selected Single entries are accumulated under %d condition(s), selected First/Last Range entries under %d: a range row that meets the selection condition is dropped (or a single one is)" % (len(acc[0]), len(acc[1])), b.where(), key="entry-kind-agreement|%s" % b.id, sample=(n % 4 == 1))
+    rep.floor("process_entry implementations analysed", n, 8)
+
+
 def run(tier):
     rep = Report("C15", tier, __doc__)
     prog = Program()
@@ -266,6 +336,7 @@ def run(tier):
     run_loops(prog, rep)
     sort_before_merge(prog, rep)
     accumulators(prog, rep)
+    entry_kind_agreement(prog, rep)
     rep.not_decided += [
         "values computed by run compression / gap tracking for arbitrary (unbounded) entry sequences",
         "ucd-parse's own line grammar",
